@@ -7,8 +7,12 @@
 package term
 
 import (
+	"crypto/aes"
+	"crypto/cipher"
+	"crypto/des"
 	"crypto/hmac"
 	"crypto/md5"
+	"crypto/rc4"
 	"crypto/sha1"
 	"crypto/sha256"
 	"crypto/sha512"
@@ -171,6 +175,93 @@ func Eval(t *T, env Env) ([]byte, error) {
 		d := h()
 		d.Write(m)
 		return d.Sum(nil), nil
+	case "aead":
+		if t.S != "aesgcm" || len(t.A) != 4 {
+			return nil, fmt.Errorf("term: unsupported AEAD %q", t.S)
+		}
+		var x [4][]byte
+		for i := range x {
+			v, err := arg(i)
+			if err != nil {
+				return nil, err
+			}
+			x[i] = v
+		}
+		blk, err := aes.NewCipher(x[0])
+		if err != nil {
+			return nil, err
+		}
+		g, err := cipher.NewGCM(blk)
+		if err != nil {
+			return nil, err
+		}
+		if len(x[1]) != g.NonceSize() {
+			return nil, fmt.Errorf("term: AEAD nonce of %d bytes", len(x[1]))
+		}
+		return g.Seal(nil, x[1], x[3], x[2]), nil
+	case "cbc":
+		if len(t.A) != 3 {
+			return nil, fmt.Errorf("term: cbc needs key, iv, plaintext")
+		}
+		key, err := arg(0)
+		if err != nil {
+			return nil, err
+		}
+		iv, err := arg(1)
+		if err != nil {
+			return nil, err
+		}
+		pt, err := arg(2)
+		if err != nil {
+			return nil, err
+		}
+		var blk cipher.Block
+		switch t.S {
+		case "aes":
+			blk, err = aes.NewCipher(key)
+		case "3des":
+			blk, err = des.NewTripleDESCipher(key)
+		default:
+			err = fmt.Errorf("term: unsupported block cipher %q", t.S)
+		}
+		if err != nil {
+			return nil, err
+		}
+		if len(iv) != blk.BlockSize() || len(pt)%blk.BlockSize() != 0 {
+			return nil, fmt.Errorf("term: cbc with iv %d bytes, plaintext %d bytes", len(iv), len(pt))
+		}
+		out := make([]byte, len(pt))
+		cipher.NewCBCEncrypter(blk, iv).CryptBlocks(out, pt)
+		return out, nil
+	case "rc4":
+		key, err := arg(0)
+		if err != nil {
+			return nil, err
+		}
+		data, err := arg(1)
+		if err != nil {
+			return nil, err
+		}
+		c, err := rc4.NewCipher(key)
+		if err != nil {
+			return nil, err
+		}
+		skip := make([]byte, t.N)
+		c.XORKeyStream(skip, skip)
+		out := make([]byte, len(data))
+		c.XORKeyStream(out, data)
+		return out, nil
+	case "u64":
+		if t.N < 0 {
+			return nil, fmt.Errorf("term: u64(%d)", t.N)
+		}
+		out := make([]byte, 8)
+		v := uint64(t.N)
+		for i := 7; i >= 0; i-- {
+			out[i] = byte(v)
+			v >>= 8
+		}
+		return out, nil
 	case "u8", "u16", "u24", "u32":
 		w := map[string]int{"u8": 1, "u16": 2, "u24": 3, "u32": 4}[t.Op]
 		if t.N < 0 || (w < 4 && t.N >= 1<<(8*uint(w))) {
